@@ -9,41 +9,93 @@ open Tdx Tdx.Abi Tdx.Ccel
 
 variable {State : Type}
 
-/-- **C18, main statement.** A state is returned only if the quote passes verification, passes validation, the bank
-    could be built, and replaying the log against that bank produced exactly this state. -/
-theorem state_implies_gates (verify validate : Outcome Unit) (q : Option QuoteV4) (replay : Bank → Outcome State) (st : State)
-    (h : parseCcel verify validate q replay = .ok st) :
-    verify = .ok () ∧ validate = .ok () ∧ ∃ bank, getRtmrs true q = .ok bank ∧ replay bank = .ok st := by
+/-- **C18, main statement.** A state is returned (alone or next to an error) only if the quote passes verification,
+    passes validation, the bank could be built, and replaying the log against that bank produced exactly this state. -/
+theorem state_implies_gates (verify validate : Outcome Unit) (q : Option QuoteV4) (replay : Bank → Outcome (GoRet State))
+    (r : GoRet State) (st : State) (h : parseCcel verify validate q replay = .ok r) (hs : r.state = some st) :
+    verify = .ok () ∧ validate = .ok () ∧ ∃ bank, getRtmrs true q = .ok bank ∧ replay bank = .ok r := by
   unfold parseCcel at h
-  obtain ⟨u1, h1, h⟩ := bind_ok h
-  obtain ⟨u2, h2, h⟩ := bind_ok h
-  obtain ⟨bank, h3, h⟩ := bind_ok h
-  cases u1; cases u2
-  exact ⟨h1, h2, bank, h3, h⟩
+  cases verify with
+  | panic => simp at h
+  | err e => simp at h; subst h; simp at hs
+  | ok u =>
+    cases validate with
+    | panic => simp at h
+    | err e => simp at h; subst h; simp at hs
+    | ok u2 =>
+      cases hb : getRtmrs true q with
+      | panic => simp [hb] at h
+      | err e => simp [hb] at h; subst h; simp at hs
+      | ok bank =>
+        simp only [hb] at h
+        cases hr : replay bank with
+        | panic => simp [hr] at h
+        | err e => simp [hr] at h; subst h; simp at hs
+        | ok r' =>
+          simp only [hr] at h
+          cases h
+          exact ⟨rfl, rfl, bank, rfl, hr⟩
 
-/-- and conversely: with both gates passed the result is exactly the replay's -/
-theorem gates_passed (q : Option QuoteV4) (replay : Bank → Outcome State) (bank : Bank) (hb : getRtmrs true q = .ok bank) :
-    parseCcel (.ok ()) (.ok ()) q replay = replay bank := by
+/-- and conversely: with both gates passed the result is exactly the pair the replay hands back -/
+theorem gates_passed (q : Option QuoteV4) (replay : Bank → Outcome (GoRet State)) (bank : Bank) (r : GoRet State)
+    (hb : getRtmrs true q = .ok bank) (hr : replay bank = .ok r) :
+    parseCcel (.ok ()) (.ok ()) q replay = .ok r := by
   unfold parseCcel
-  rw [bind_eq rfl, bind_eq rfl, bind_eq hb]
+  simp [hb, hr]
 
-/-- if either gate fails the call returns that error and no state -/
-theorem failure_returns_no_state (verify validate : Outcome Unit) (q : Option QuoteV4) (replay : Bank → Outcome State)
-    (h : (∃ e, verify = .err e) ∨ (∃ e, validate = .err e)) :
-    ∀ st, parseCcel verify validate q replay ≠ .ok st := by
-  intro st hst
-  obtain ⟨a, b, _⟩ := state_implies_gates verify validate q replay st hst
-  rcases h with ⟨e, he⟩ | ⟨e, he⟩
-  · rw [he] at a; cases a
-  · rw [he] at b; cases b
+/-- if either gate fails the call returns that gate's error and no state -/
+theorem failure_returns_no_state (verify validate : Outcome Unit) (q : Option QuoteV4) (replay : Bank → Outcome (GoRet State))
+    (h : (∃ e, verify = .err e) ∨ (verify = .ok () ∧ ∃ e, validate = .err e)) :
+    ∃ e, parseCcel verify validate q replay = .ok ⟨none, some e⟩ := by
+  rcases h with ⟨e, he⟩ | ⟨hv, e, he⟩
+  · exact ⟨e, by simp [parseCcel, he]⟩
+  · exact ⟨e, by simp [parseCcel, hv, he]⟩
 
-/-- a differing replay (e.g. an RTMR value that does not match the log) is an error: the state comes only from the replay -/
-theorem replay_mismatch_returns_no_state (verify validate : Outcome Unit) (q : Option QuoteV4) (replay : Bank → Outcome State)
-    (hr : ∀ bank, ∃ e, replay bank = .err e) : ∀ st, parseCcel verify validate q replay ≠ .ok st := by
-  intro st hst
-  obtain ⟨_, _, bank, _, hb⟩ := state_implies_gates verify validate q replay st hst
-  obtain ⟨e, he⟩ := hr bank
-  rw [he] at hb; cases hb
+/-- whichever way a gate fails (first or second), no result of the call carries a state -/
+theorem failed_gate_never_yields_state (verify validate : Outcome Unit) (q : Option QuoteV4) (replay : Bank → Outcome (GoRet State))
+    (h : (∃ e, verify = .err e) ∨ (∃ e, validate = .err e)) (r : GoRet State)
+    (hr : parseCcel verify validate q replay = .ok r) : r.state = none := by
+  cases hs : r.state with
+  | none => rfl
+  | some st =>
+    obtain ⟨a, b, _⟩ := state_implies_gates verify validate q replay r st hr hs
+    rcases h with ⟨e, he⟩ | ⟨e, he⟩
+    · rw [he] at a; cases a
+    · rw [he] at b; cases b
+
+/-- a replay that yields no state (e.g. an RTMR value that does not match the log) yields none here: the state comes only
+    from the replay -/
+theorem replay_mismatch_returns_no_state (verify validate : Outcome Unit) (q : Option QuoteV4) (replay : Bank → Outcome (GoRet State))
+    (hrp : ∀ bank r, replay bank = .ok r → r.state = none) (r : GoRet State)
+    (hr : parseCcel verify validate q replay = .ok r) : r.state = none := by
+  cases hs : r.state with
+  | none => rfl
+  | some st =>
+    obtain ⟨_, _, bank, _, hb⟩ := state_implies_gates verify validate q replay r st hr hs
+    rw [hrp bank r hb] at hs; cases hs
+
+/-- the call never invents an outcome: without a crash of a gate or of the replay it does not crash -/
+theorem parse_panics_only_if_part_does (verify validate : Outcome Unit) (q : Option QuoteV4) (replay : Bank → Outcome (GoRet State))
+    (hv : verify ≠ .panic) (hva : validate ≠ .panic) (hrp : ∀ bank, replay bank ≠ .panic) (hq : getRtmrs true q ≠ .panic) :
+    parseCcel verify validate q replay ≠ .panic := by
+  unfold parseCcel
+  cases verify with
+  | panic => exact absurd rfl hv
+  | err e => simp
+  | ok u =>
+    cases validate with
+    | panic => exact absurd rfl hva
+    | err e => simp
+    | ok u2 =>
+      cases hb : getRtmrs true q with
+      | panic => exact absurd hb hq
+      | err e => simp
+      | ok bank =>
+        simp only
+        cases hr : replay bank with
+        | panic => exact absurd hr (hrp bank)
+        | err e => simp
+        | ok r => simp
 
 theorem bankLoop_spec (rs : List Bytes) (i : Nat) (bank : Bank) (h : bankLoop i rs = .ok bank) :
     bank.length = rs.length ∧ ∀ j (h1 : j < bank.length) (h2 : j < rs.length), bank[j] = (i + j, rs[j]) ∧ i + j ≤ 3 := by
@@ -115,6 +167,9 @@ theorem unfixed_witness_nil_body : getRtmrs false (some { (default : QuoteV4) wi
   simp [getRtmrs]
 
 /-! ### non-vacuity -/
+example : parseCcel (State := Nat) (.ok ()) (.ok ()) (some default) (fun _ => .ok ⟨some 7, some "no GRUB measurements found"⟩)
+    = .ok ⟨some 7, some "no GRUB measurements found"⟩ := by decide
+example : parseCcel (State := Nat) (.ok ()) (.err "policy") (some default) (fun _ => .ok ⟨some 7, none⟩) = .ok ⟨none, some "policy"⟩ := by decide
 example : getRtmrs true (some { (default : QuoteV4) with tdQuoteBody := some { (default : TdQuoteBody) with rtmrs := [[1], [2], [3], [4]] } })
     = .ok [(0, [1]), (1, [2]), (2, [3]), (3, [4])] := by decide
 
